@@ -882,3 +882,57 @@ func firstLines(s string, n int) string {
 	}
 	return strings.Join(l, "\n")
 }
+
+// Hashes executes runs 0..n-1 of a check and prints "<run index> <trace hash> <violation class>"
+// in index order. Used by the determinism self-test, which compares the output of many
+// processes at different GOMAXPROCS and worker counts.
+func Hashes(id, tier string, seed uint64, n int, workers int) int {
+	ch := Registry[id]
+	if ch == nil {
+		return 2
+	}
+	ff, _ := LoadFindings(filepath.Join(verifDir(), "known_findings.json"))
+	avoid := map[string]bool{}
+	if ff != nil {
+		avoid = ff.AvoidSet(id)
+	}
+	if workers <= 0 {
+		workers = runtime.GOMAXPROCS(0)
+	}
+	lines := make([]string, n)
+	var next uint64
+	var wg sync.WaitGroup
+	var bad atomic.Value
+	for w := 0; w < workers; w++ {
+		wg.Add(1)
+		go func() {
+			defer wg.Done()
+			for {
+				i := atomic.AddUint64(&next, 1) - 1
+				if i >= uint64(n) {
+					return
+				}
+				t := newRunTape(ch, tier, seed, i)
+				out, infra := runOnce(ch, &Ctx{T: t, Tier: tier, RunIndex: i, Avoid: avoid})
+				if infra != nil {
+					bad.Store(infra)
+					return
+				}
+				cls := "-"
+				if out.V != nil {
+					cls = out.V.Class
+				}
+				lines[i] = fmt.Sprintf("%d %016x %d %s", i, out.TraceHash, t.Pos(), cls)
+			}
+		}()
+	}
+	wg.Wait()
+	if e := bad.Load(); e != nil {
+		fmt.Fprintf(os.Stderr, "INFRASTRUCTURE ERROR: %v\n", e)
+		return 2
+	}
+	for _, l := range lines {
+		fmt.Println(l)
+	}
+	return 0
+}
